@@ -340,6 +340,15 @@ g_deps = g_history("deps", [None, None, None, "f07", "f08"])
 g_depsx = g_history("depsx", [None, None, "f07", "f07", "f08"])
 
 
+def g_depsemu(r):
+    """C05 end to end: the same programs and histories, run by the real emulator (harness op depsemu)."""
+    if r.random() < 0.4:
+        line = g_depsx_long(r)
+    else:
+        line = g_depsx(r)
+    return "depsemu %d %s" % (r.getrandbits(32), line.split(" ", 1)[1])
+
+
 def g_depsx_long(r):
     """One block, many accepted moves."""
     shape = r.choice([None, "f07", "f08"])
